@@ -945,6 +945,15 @@ impl<'s, const M: usize> Exec<'s, M> {
         self.cur_kind = op.kind();
         self.step(op);
         self.stats.steps += 1;
+        if let Some(note) = self.harness_note.take() {
+            if self.viol.is_empty() {
+                // give the memory oracles a chance to name the cause first
+                self.checkpoint();
+            }
+            if self.viol.is_empty() {
+                self.violate("HARNESS", note, "", String::new());
+            }
+        }
         let live: usize = if every == 1 { self.blocks.values().map(|b| b.size).sum() } else { 0 };
         let every = if live > (256 << 10) { 8 } else { every };
         if self.viol.is_empty() && (i % every == every - 1) {
